@@ -213,8 +213,16 @@ def check_property(prop, tier, seed):
             props = fn_props(res, name, pinfo.get("default_props", [prop]))
             if prop not in props:
                 continue
-            obligations += 1
             fm = (res.get("meta") or {}).get("functions", {}).get(name, {})
+            # an obligation whose every failing clause is a listed known finding is reported as
+            # KNOWN-FINDING and not counted as a claimed obligation
+            if not e["ok"]:
+                names_ = [o for o, _ in obligation_names(uname, name, e)]
+                if names_ and all(any(k.get("property") == prop and k.get("obligation") == o and k.get("status", "open") == "open" for k in known) for o in names_):
+                    for o in names_:
+                        known_hits.append((o, [k for k in known if k.get("obligation") == o][0]))
+                    continue
+            obligations += 1
             row = {"obligation": "%s::%s" % (uname, name), "back_end": "verus+z3", "ms": e["ms"], "mode": e["mode"], "ok": e["ok"]}
             if fm:
                 row.update({"source": fm["file"], "sha_orig": fm["sha_orig"], "sha_emitted": fm["sha_emitted"], "rules": fm["rules"]})
